@@ -17,16 +17,30 @@ theorem markKey_of {k : List Char} (hk : k ≠ []) : markKey ('_' :: k) = some k
 
 theorem ofList_toList_key {k : List Char} : (String.ofList k).toList = k := String.toList_ofList
 
+/-- no anchor carries object-lib data -/
+def NoLib (i : Input) : Prop := ∀ g ∈ i.glyphs, ∀ a ∈ g.anchors, a.lib = none ∧ a.idNoLib = false
+
+/-- … then no NamedAnchor is contextual -/
+theorem noctx {i : Input} {al : AList} (w : ALwf i al) (nl : NoLib i) {e : String × List NA} (he : e ∈ al)
+    {a : NA} (ha : a ∈ e.2) : a.ctx = none := by
+  cases hc : a.ctx with
+  | none => rfl
+  | some c =>
+    obtain ⟨sg, hsg, _, hsrc⟩ := w.src e he
+    obtain ⟨s, hs, _, _, _, hl⟩ := hsrc a ha
+    have := hl c hc
+    rw [(nl sg (findGlyph_some hsg).1 s hs).1] at this; simp at this
+
 section
-variable {i : Input} {al : AList} (w : ALwf i al) (cv : ALcov i al)
-include w cv
+variable {i : Input} {al : AList} (w : ALwf i al) (cv : ALcov i al) (nl : NoLib i)
+include w cv nl
 
 omit w in
 /-- a source anchor `_k` on an included glyph gives a mark NamedAnchor in the lists -/
 theorem na_of_src_mark {sg : SrcGlyph} (hsg : sg ∈ i.glyphs) (hinc : included i sg.name = true) {s : SrcAnchor}
     (hs : s ∈ sg.anchors) {k : List Char} (hn : s.name.toList = '_' :: k) (hk : plainKey k = true) :
     ∃ a, AnchorIn al sg.name a ∧ a.isMark = true ∧ a.key = String.ofList k := by
-  obtain ⟨a0, h0, _, h2, h3, _⟩ := src_mark (q := i.quant) hn hk
+  obtain ⟨a0, h0, _, h2, h3, _⟩ := src_mark (q := i.quant) (nl sg hsg s hs).2 hn hk
   obtain ⟨as, has, a, ha, _, e2, e3, _⟩ := cv.cov sg hsg hinc s hs a0 h0
   exact ⟨a, ⟨as, has, ha⟩, by rw [e2, h2], by rw [e3, h3]⟩
 
@@ -39,12 +53,12 @@ theorem na_of_src_base {sg : SrcGlyph} (hsg : sg ∈ i.glyphs) (hinc : included 
   cases c with
   | none =>
     have hn : s.name.toList = k := by simpa [baseNameMatches] using hm
-    obtain ⟨a0, h0, _, h2, h3, h4⟩ := src_base (q := i.quant) hn hk
+    obtain ⟨a0, h0, _, h2, h3, h4⟩ := src_base (q := i.quant) (nl sg hsg s hs).2 hn hk
     obtain ⟨as, has, a, ha, _, e2, e3, e4⟩ := cv.cov sg hsg hinc s hs a0 h0
     exact ⟨a, ⟨as, has, ha⟩, by rw [e2, h2], by rw [e3, h3], by rw [e4, h4]; rfl⟩
   | some j =>
     have hl : isLigName k (j + 1) s.name.toList = true := by simpa [baseNameMatches] using hm
-    obtain ⟨a0, h0, _, h2, h3, h4⟩ := src_lig (q := i.quant) hl ((plainKey_iff k).mp hk).1 (by omega)
+    obtain ⟨a0, h0, _, h2, h3, h4⟩ := src_lig (q := i.quant) (nl sg hsg s hs).2 hl ((plainKey_iff k).mp hk).1 (by omega)
     obtain ⟨as, has, a, ha, _, e2, e3, e4⟩ := cv.cov sg hsg hinc s hs a0 h0
     exact ⟨a, ⟨as, has, ha⟩, by rw [e2, h2], by rw [e3, h3], by rw [e4, h4]; rfl⟩
 
@@ -62,15 +76,17 @@ theorem mg_of_isMarkGlyph {b : String} {gb : SrcGlyph} (hfb : findGlyph i b = so
     simp only [Bool.and_eq_true, any_eq_true] at hcond
     obtain ⟨hpk, hh, hhg, hhinc, hbs⟩ := hcond
     obtain ⟨hn, _⟩ := markKey_some hmk
-    obtain ⟨am, ham, hmm, hmkey⟩ := na_of_src_mark cv hgb hinc hs hn hpk
+    obtain ⟨am, ham, hmm, hmkey⟩ := na_of_src_mark cv nl hgb hinc hs hn hpk
     -- the base side
     unfold hasBaseSide at hbs
     rw [any_eq_true] at hbs
     obtain ⟨s', hs', hcase⟩ := hbs
+    have hpn : pairName s' = s'.name.toList := by simp [pairName, (nl hh hhg s' hs').1]
+    rw [hpn] at hcase
     have : ∃ ab, AnchorIn al hh.name ab ∧ ab.isMark = false ∧ ab.key = String.ofList k := by
       rw [Bool.or_eq_true] at hcase
       rcases hcase with hc | hc
-      · obtain ⟨a, h1, h2, h3, _⟩ := na_of_src_base cv hhg hhinc hs' hpk none (by simpa [baseNameMatches] using hc)
+      · obtain ⟨a, h1, h2, h3, _⟩ := na_of_src_base cv nl hhg hhinc hs' hpk none (by simpa [baseNameMatches] using hc)
         exact ⟨a, h1, h2, h3⟩
       · simp only [Bool.and_eq_true, Bool.not_eq_true', all_eq_true] at hc
         obtain ⟨⟨hpre, hne⟩, hdig⟩ := hc
@@ -82,10 +98,11 @@ theorem mg_of_isMarkGlyph {b : String} {gb : SrcGlyph} (hfb : findGlyph i b = so
         rw [hnum] at hpos
         obtain ⟨j, hj⟩ : ∃ j, digitsToNat (s'.name.toList.drop (k.length + 1)) = j + 1 := ⟨_, (Nat.sub_add_cancel hpos).symm⟩
         rw [hj] at hl0
-        obtain ⟨a, h1, h2, h3, _⟩ := na_of_src_base cv hhg hhinc hs' hpk (some j) (by simpa [baseNameMatches] using hl0)
+        obtain ⟨a, h1, h2, h3, _⟩ := na_of_src_base cv nl hhg hhinc hs' hpk (some j) (by simpa [baseNameMatches] using hl0)
         exact ⟨a, h1, h2, h3⟩
     obtain ⟨ab, hab, hnb, hbkey⟩ := this
-    exact pair_mg w ⟨hab, ham, hnb, hmm, by rw [hmkey, hbkey]⟩ hok
+    obtain ⟨asm, hasm, hamm⟩ := ham
+    exact pair_mg w ⟨hab, ⟨asm, hasm, hamm⟩, hnb, hmm, noctx w nl hasm hamm, by rw [hmkey, hbkey]⟩ hok
 
 omit cv in
 /-- the writer's markGlyphNames ⇒ Spec.isMarkGlyph -/
@@ -102,7 +119,7 @@ theorem isMarkGlyph_of_mg {b : String} {gb : SrcGlyph} (hfb : findGlyph i b = so
   rw [hfb] at hsg
   simp only [Option.some.injEq] at hsg; subst hsg
   obtain ⟨s, hs, hsn, _, _⟩ := hsrc a ha1
-  have hsa := w.shape _ has a ha1
+  have hsa := w.shape _ has a ha1 (noctx w nl has ha1)
   obtain ⟨hn, hpk, _⟩ := hsa.mark ha2
   have hkne : a.key.toList ≠ [] := by
     obtain ⟨⟨c', r', e', _⟩, _⟩ := (plainKey_iff _).mp hpk
@@ -116,7 +133,7 @@ theorem isMarkGlyph_of_mg {b : String} {gb : SrcGlyph} (hfb : findGlyph i b = so
   obtain ⟨sg', hsg', hinc', hsrc'⟩ := w.src _ he1
   obtain ⟨hsg'm, hsg'n⟩ := findGlyph_some hsg'
   obtain ⟨s', hs', hs'n, _, _⟩ := hsrc' a' ha'
-  have hsa' := w.shape _ he1 a' ha'
+  have hsa' := w.shape _ he1 a' ha' (noctx w nl he1 ha')
   simp only [isMarkGlyph, Bool.and_eq_true, any_eq_true]
   rw [hname]
   refine ⟨⟨hinc, hok⟩, s, hs, ?_⟩
@@ -126,7 +143,8 @@ theorem isMarkGlyph_of_mg {b : String} {gb : SrcGlyph} (hfb : findGlyph i b = so
   unfold hasBaseSide
   rw [any_eq_true]
   refine ⟨s', hs', ?_⟩
-  rw [hs'n, ← hkey]
+  have hpn : pairName s' = s'.name.toList := by simp [pairName, (nl sg' hsg'm s' hs').1]
+  rw [hpn, hs'n, ← hkey]
   cases hnum : a'.number with
   | none =>
     obtain ⟨e2, _⟩ := hsa'.base hnm' hnum
